@@ -3,7 +3,7 @@
    `bop` (Model/BufferOps.v) is the operation alphabet of hb_buffer_t; `step`/`run` its semantics over
    the zipper model, the same functions the correspondence check replays real operation sequences on. *)
 From Coq Require Import List NArith Bool Sorted.
-From RB Require Import Base.Result Model.Buffer Model.BufferOps Proofs.BufferP Proofs.BufferMonoP.
+From RB Require Import Base.Result Model.Buffer Model.BufferOps Proofs.BufferP Proofs.BufferMonoP Proofs.BufferMonoInplaceP.
 Import ListNotations.
 Local Open Scope N_scope.
 
@@ -50,6 +50,36 @@ Proof. exact step_mono. Qed.
 Print Assumptions C02_monotone_step_partial.
 
 (* the flag calls never touch a cluster value *)
+(* both modes: every sequence of streaming operations (issued in output mode) and in-place operations
+   (merge_clusters, unsafe_to_break/concat, reset_masks, set_masks, sort, delete_glyphs_inplace, clear_output;
+   issued in in-place mode) at cluster levels 0/1 keeps non-decreasing clusters non-decreasing.
+   Still partial: reverse_range / reverse_groups (forced direction), move_to and next_glyph in in-place mode,
+   and output_info are outside the alphabet; the shapers' own reordering is search-only. *)
+Theorem C02_monotone_both_modes_partial : forall (ops : list bop) (b b' : zbuf),
+  Mono b -> guarded2 b ops -> run b ops = Ok (Some b') -> Mono b'.
+Proof. exact run_mono2. Qed.
+Print Assumptions C02_monotone_both_modes_partial.
+
+(* backward results: the final reversal (ot_shape.rs position: reverse when the direction is backward) of a
+   buffer with non-decreasing clusters has non-increasing clusters *)
+Theorem C02_backward_is_non_increasing : forall (ops : list bop) (b b1 b2 : zbuf),
+  Mono b -> guarded2 b ops -> run b ops = Ok (Some b1) -> Idle0 b1 -> reverse b1 = Ok b2 -> AMono b2.
+Proof. exact run_then_reverse. Qed.
+Print Assumptions C02_backward_is_non_increasing.
+
+Theorem C02_sort_keeps_monotone : forall cmp b s e b',
+  Mono b -> Lvl01 b -> out_mode b = false -> sort cmp b s e = Ok b' -> Mono b'.
+Proof. exact sort_mono. Qed.
+Print Assumptions C02_sort_keeps_monotone.
+
+(* the hypotheses are met by a sequence that uses both modes; the reversed result is non-increasing *)
+Example C02_both_modes_example : Mono ex_buf /\ guarded2 ex_buf ex_ops /\
+  match run ex_buf ex_ops with
+  | Ok (Some b1) => Idle0 b1 /\ match reverse b1 with Ok b2 => map cluster (arr b2) = [5; 0] | _ => False end
+  | _ => False
+  end.
+Proof. exact ex_guarded. Qed.
+
 Theorem C02_flags_keep_clusters : forall b m s e interior from_out b',
   set_glyph_flags b m s e interior from_out = Ok b' -> cls (pre b' ++ rest b') = cls (pre b ++ rest b).
 Proof. exact set_glyph_flags_cls. Qed.
